@@ -888,33 +888,14 @@ compareNodeSets(
                 theRHS.num(executionContext),
                 theNumberCompareFunction);
     }
-    else if(theRHSType == XObject::eTypeResultTreeFrag)
+    else if(theRHSType == XObject::eTypeString ||
+            theRHSType == XObject::eTypeResultTreeFrag)
     {
-        // hmmm... 
-        const double    theRHSNumber = theRHS.num(executionContext);
-
-        if(DoubleSupport::isNaN(theRHSNumber) == false)
-        {
-            // Compare as number...
-            theResult = doCompareNumber(
-                    theLHS.nodeset(),
-                    getNumberFromNodeFunction(executionContext),
-                    theRHS.num(executionContext),
-                    theNumberCompareFunction);
-        }
-        else
-        {
-            // Compare as string...
-            theResult = doCompareString(
-                    theLHS.nodeset(),
-                    getStringFromNodeFunction(executionContext),
-                    theRHS,
-                    theStringCompareFunction,
-                    executionContext);
-        }
-    }
-    else if(theRHSType == XObject::eTypeString)
-    {
+        // A result tree fragment is treated as a node-set that contains
+        // just a single root node (XSLT 1.0, section 11.1), so the
+        // comparison is performed on the string-values of the nodes and
+        // the string-value of the fragment, exactly as for a string.
+        //
         // Excerpt from: 
         //   XML Path Language (XPath) Version 1.0
         //   W3C Recommendation 16 November 1999
@@ -1147,6 +1128,30 @@ XObject::notEquals(
 
 
 
+// Converts an operand of a relational operator to a number, when neither
+// operand is a node-set.  A result tree fragment is treated as a node-set
+// that contains just a single root node (XSLT 1.0, section 11.1), so when
+// the other operand is a boolean, the fragment is converted with the
+// boolean function, as a node-set is (XPath 1.0, section 3.4).
+inline double
+relationalOperand(
+            const XObject&          theObject,
+            XObject::eObjectType    theOtherType,
+            XPathExecutionContext&  executionContext)
+{
+    if (theObject.getType() == XObject::eTypeResultTreeFrag &&
+        theOtherType == XObject::eTypeBoolean)
+    {
+        return theObject.boolean(executionContext) == true ? 1.0 : 0.0;
+    }
+    else
+    {
+        return theObject.num(executionContext);
+    }
+}
+
+
+
 bool
 XObject::lessThan(
             const XObject&          theRHS,
@@ -1168,7 +1173,9 @@ XObject::lessThan(
     }
     else
     {
-        return DoubleSupport::lessThan(num(executionContext), theRHS.num(executionContext));
+        return DoubleSupport::lessThan(
+                relationalOperand(*this, theRHS.getType(), executionContext),
+                relationalOperand(theRHS, theLHSType, executionContext));
     }
 }
 
@@ -1195,7 +1202,9 @@ XObject::lessThanOrEquals(
     }
     else
     {
-        return DoubleSupport::lessThanOrEqual(num(executionContext), theRHS.num(executionContext));
+        return DoubleSupport::lessThanOrEqual(
+                relationalOperand(*this, theRHS.getType(), executionContext),
+                relationalOperand(theRHS, theLHSType, executionContext));
     }
 }
 
@@ -1222,7 +1231,9 @@ XObject::greaterThan(
     }
     else
     {
-        return DoubleSupport::greaterThan(num(executionContext), theRHS.num(executionContext));
+        return DoubleSupport::greaterThan(
+                relationalOperand(*this, theRHS.getType(), executionContext),
+                relationalOperand(theRHS, theLHSType, executionContext));
     }
 }
 
@@ -1249,7 +1260,9 @@ XObject::greaterThanOrEquals(
     }
     else
     {
-        return DoubleSupport::greaterThanOrEqual(num(executionContext), theRHS.num(executionContext));
+        return DoubleSupport::greaterThanOrEqual(
+                relationalOperand(*this, theRHS.getType(), executionContext),
+                relationalOperand(theRHS, theLHSType, executionContext));
     }
 }
 
